@@ -232,6 +232,35 @@ def dispatch (toks : List String) : String :=
              if fails.isEmpty then "ok" else "fail " ++ ",".intercalate fails)
         | none => "bad-op")
      | _ => "bad-op")
+  -- p.C01 <proj> S <L id:status,...>
+  | "p.C01" :: rest =>
+    (match rest.reverse with
+     | s :: "S" :: projRev =>
+       (match parseProj projRev.reverse with
+        | some p =>
+          (match p.graph with
+           | .error e => "err " ++ e.name
+           | .ok gr =>
+             let status := (unlist s).filterMap (fun e => match e.splitOn ":" with
+               | [k, v] => (Status.ofName? v).map (fun st => (nat! k, st))
+               | _ => none)
+             let fails := Spec.c01 p gr status
+             if fails.isEmpty then "ok" else "fail " ++ ",".intercalate fails)
+        | none => "bad-op")
+     | _ => "bad-op")
+  -- p.C03 <proj> D <deps> R <dependents> N <Lendpoints> V <L hpath:id,...>
+  | "p.C03" :: rest =>
+    (match rest.reverse with
+     | v :: "V" :: n :: "N" :: r :: "R" :: d :: "D" :: projRev =>
+       (match parseProj projRev.reverse with
+        | some p =>
+          let prov := (unlist v).filterMap (fun e => match e.splitOn ":" with
+            | [k, i] => some (unh k, nat! i)
+            | _ => none)
+          let fails := Spec.c03 p (parseDeps d) (parseDeps r) (natList n) prov
+          if fails.isEmpty then "ok" else "fail " ++ ",".intercalate fails
+        | none => "bad-op")
+     | _ => "bad-op")
   | _ => "bad-op"
 
 end Drv
